@@ -17,7 +17,10 @@ from props.refprops import all_findings
 PID = "C14"
 THEOREMS = {"CbProps.C14": ["CbProps.C14." + t for t in [
     "task_output_in_program_order", "finished_task_printed_whole_body", "finished_is_final",
-    "await_in_task_delivers_result", "await_in_main_delivers_result"]]}
+    "await_in_task_delivers_result", "await_in_main_delivers_result"]],
+    "CbProps.C14Spec": ["CbProps.C14Spec." + t for t in [
+        "turn_preserves_meaning", "any_schedule_preserves_task_meaning", "finished_task_output", "turn_other_task_unchanged",
+        "yield_resumes_at_next_statement"]]}
 
 FEATURES = ["base", "yield_top", "yield_in_for", "yield_in_while", "yield_in_if", "yield_in_else", "nested_for", "nested_for_yield",
             "same_counter", "if_cond_changes", "while_top", "locals_many", "early_return", "yield_in_block", "for_in_if"]
@@ -175,7 +178,7 @@ def gen_case(r, feature):
 def main(a):
     v = common.Verdict(PID, a.tier, a.seed)
     has = os.path.exists(os.path.join(common.LEAN, "CbProps", "C14.lean"))
-    driver_ok, failed = common.lean_obligations(v, ["CbProofs"] + (["CbProps.C14"] if has else []), THEOREMS if has else {})
+    driver_ok, failed = common.lean_obligations(v, ["CbProofs"] + (["CbProps.C14", "CbProps.C14Spec"] if has else []), THEOREMS if has else {})
     exe, blog = common.build_impl()
     if exe is None or not driver_ok:
         v.violation("cannot build the interpreter / driver: " + (blog or "")[-600:], {"log": (blog or "")[-2000:]}, no_input=True)
